@@ -1697,9 +1697,24 @@ behavior[numpy.power, "Momentum4D", numbers.Real] = (
     lambda v, expo: v.tau2 if expo == 2 else v.tau**expo
 )
 
-behavior["__cast__", VectorNumpy2D] = lambda v: vector.Array(v)
-behavior["__cast__", VectorNumpy3D] = lambda v: vector.Array(v)
-behavior["__cast__", VectorNumpy4D] = lambda v: vector.Array(v)
+
+
+def _cast_numpy(v: typing.Any) -> typing.Any:
+    # element-wise records of the same flavor as the NumPy vector array (whose
+    # fields always carry the geometric names), also for more than one dimension
+    plain = v.view(numpy.ndarray)
+    prefix = "Momentum" if isinstance(v, Momentum) else "Vector"
+    dimension = 4 if isinstance(v, Vector4D) else 3 if isinstance(v, Vector3D) else 2
+    return ak.zip(
+        {name: plain[name] for name in plain.dtype.names},
+        with_name=f"{prefix}{dimension}D",
+        behavior=None if vector._awkward_registered else behavior,
+    )
+
+
+behavior["__cast__", VectorNumpy2D] = _cast_numpy
+behavior["__cast__", VectorNumpy3D] = _cast_numpy
+behavior["__cast__", VectorNumpy4D] = _cast_numpy
 
 for left in (
     "Vector2D",
